@@ -95,7 +95,9 @@ def run_case(c):
     T = caps["last"]
     nsteps = caps["n"]
     stored = float(np.sum((Cap[:-1] * 120.0) * (T[:-1] - 20.0)))
-    out = {"ok": True, "n_cells": n, "nsteps": nsteps, "Rb": Rb, "Rf_half": Rf, "k_soil": c["k_soil"],
+    # the end of the computed period as the implementation reports it: the time its last (un-resampled) point is labelled with
+    t_end = float(rn.t_s * math.exp(rn.lntts[-1]))
+    out = {"ok": True, "t_end_reported": t_end, "t_s": float(rn.t_s), "n_cells": n, "nsteps": nsteps, "Rb": Rb, "Rf_half": Rf, "k_soil": c["k_soil"],
            "r_in": cells[P.R_IN].tolist(), "r_out": cells[P.R_OUT].tolist(), "r_center": cells[P.R_CENTER].tolist(),
            "k": cells[P.K].tolist(), "cap": Cap.tolist(), "cond": cond, "steps": caps["steps"],
            "stored": stored, "injected": 120.0 * nsteps, "leaked": 120.0 * cond[-1] * caps.get("far_sum", 0.0),
@@ -104,6 +106,22 @@ def run_case(c):
            "fluid_mass": float(np.sum(Cap[:3] * 120.0)), "fluid_mass_expected": 2 * math.pi * rp_in ** 2 * fluid.rhoCp,
            "r_fluid": rn.r_fluid, "r_far": rn.r_far_field, "bh_wall_idx": rn.bh_wall_idx, "counts": [3, 1, 4, 27, 500],
            "regions": [[rn.r_fluid, rn.r_convection], [rn.r_convection, rn.r_in_tube], [rn.r_in_tube, rn.r_out_tube], [rn.r_out_tube, rn.r_borehole], [rn.r_borehole, rn.r_far_field]]}
+    if c.get("reuse"):
+        # the same RadialNumericalBH object used for a second borehole (GHE.simulate re-uses one object for every height it tries):
+        # its results must be those of a fresh object built for that second borehole
+        r2 = c["reuse"]
+        soil2 = Soil(r2.get("k_soil", c["k_soil"]), r2.get("rhocp_soil", c.get("rhocp_soil", 2343493.0)), 18.3)
+        grout2 = Grout(r2.get("k_grout", c["k_grout"]), r2.get("rhocp_grout", c.get("rhocp_grout", 3901000.0)))
+        fluid2 = GHEFluid(r2.get("fluid", "water"), r2.get("conc", 0.0))
+        b2 = GHEBorehole(r2.get("H", c["H"]), 2.0, c["r_b"], 0.0, 0.0)
+        bhe2 = SingleUTube(r2.get("m_flow", c["m_flow"]), fluid2, b2, pipe, grout2, soil2)
+        rn.calc_sts_g_functions(bhe2)
+        fresh = R.RadialNumericalBH(bhe2)
+        fresh.calc_sts_g_functions(bhe2)
+        out["reuse"] = {"lntts_equal": bool(np.array_equal(rn.lntts, fresh.lntts)), "g_equal": bool(np.array_equal(rn.g, fresh.g)),
+                        "g_bhw_equal": bool(np.array_equal(rn.g_bhw, fresh.g_bhw)),
+                        "max_dev_g": float(np.max(np.abs(np.array(rn.g) - np.array(fresh.g)))) if len(rn.g) == len(fresh.g) else None,
+                        "g_end_reused": float(rn.g[-1]), "g_end_fresh": float(fresh.g[-1])}
     if c.get("fine", False):
         regs = []
         bounds = out["regions"]
@@ -112,7 +130,9 @@ def run_case(c):
         for (a, bnd), cnt in zip(bounds, cnts):
             regs.append((a, bnd, cnt, float(cells[P.K, idx]), float(cells[P.RHO_CP, idx])))
             idx += cnt
-        Tf = fine_reference(regs, 1.0, 20.0, 120.0, nsteps, refine=c.get("refine", 4))
+        # the reference runs for the period the implementation REPORTS (its last ln(t/ts)), not for its number of solves
+        ref_steps = max(1, int(round(t_end / 120.0)))
+        Tf = fine_reference(regs, 1.0, 20.0, 120.0, ref_steps, refine=c.get("refine", 4))
         out["fine_T0"] = float(Tf[0])
         out["coarse_T0"] = float(T[0])
     return out
